@@ -77,21 +77,21 @@ pub async fn broker(
                 }
                 #[cfg(feature = "verif")]
                 let verif_event = verif_describe(&uri, &doc, None);
-                docs.insert(uri.path().to_string(), doc);
+                docs.insert(uri.to_string(), doc);
                 #[cfg(feature = "verif")]
                 crate::verif_trace::emit("B", "open", verif_event);
             }
             DocumentRequest::Change(uri, changes) => {
                 use std::collections::hash_map::Entry;
                 #[cfg(feature = "verif")]
-                if !docs.contains_key(uri.path()) {
+                if !docs.contains_key(uri.as_str()) {
                     crate::verif_trace::emit(
                         "B",
                         "change",
                         serde_json::json!({"uri": uri.as_str(), "found": false}),
                     );
                 }
-                match docs.entry(uri.path().to_string()) {
+                match docs.entry(uri.to_string()) {
                     Entry::Occupied(mut entry) => {
                         let doc = entry.get().clone();
                         let text_changes = to_text_changes(changes, doc.text.clone());
@@ -113,12 +113,12 @@ pub async fn broker(
                 };
             }
             DocumentRequest::Close(uri) => {
-                docs.remove(uri.path());
+                docs.remove(uri.as_str());
                 #[cfg(feature = "verif")]
                 crate::verif_trace::emit("B", "close", serde_json::json!({"uri": uri.as_str()}));
             }
             DocumentRequest::GetInfo(uri, tx) => {
-                let doc = docs.get(uri.path()).cloned();
+                let doc = docs.get(uri.as_str()).cloned();
                 #[cfg(feature = "verif")]
                 let verif_event = serde_json::json!({"uri": uri.as_str(), "found": doc.is_some(),
                     "len": doc.as_ref().map(|doc| doc.text.len())});
